@@ -4,9 +4,11 @@ import (
 	"bufio"
 	"encoding/json"
 	"fmt"
+	"math/rand"
 	"os"
 	"os/exec"
 	"path/filepath"
+	"strconv"
 	"strings"
 	"testing"
 	"time"
@@ -91,6 +93,10 @@ func TestCrashChild(t *testing.T) {
 		}
 	}
 	progress(fmt.Sprintf("ACK %d", k-1))
+	if strings.HasPrefix(cs.Point, "timer:") {
+		us, _ := strconv.Atoi(strings.TrimPrefix(cs.Point, "timer:"))
+		time.AfterFunc(time.Duration(us)*time.Microsecond, func() { os.Exit(137) })
+	}
 	hits := 0
 	verifhook.SetHandler(func(id, arg string) {
 		if id == cs.Point {
@@ -187,8 +193,19 @@ func TestCrash(t *testing.T) {
 		}
 		sum.Behaviours++
 		tb := tables[(idx+seed)%len(tables)]
-		for _, pt := range append([]string{"none"}, points...) {
+		all := append([]string{"none"}, points...)
+		if !strict {
+			// kills at arbitrary instants: a timer in the child ends the process some microseconds into the last step
+			rnd := rand.New(rand.NewSource(int64(seed)*1000003 + int64(idx)))
+			for k := 0; k < envInt("VERIF_TIMER_KILLS", 0); k++ {
+				all = append(all, fmt.Sprintf("timer:%d", 20+rnd.Intn(2500)))
+			}
+		}
+		for _, pt := range all {
 			hitsFrom, hitsTo := 1, maxHits
+			if strings.HasPrefix(pt, "timer:") {
+				hitsFrom, hitsTo = 1, 1
+			}
 			if strict {
 				hitsFrom, hitsTo = last.Fault.N, last.Fault.N
 			}
@@ -214,7 +231,7 @@ func TestCrash(t *testing.T) {
 					_ = os.RemoveAll(wdir)
 					continue
 				}
-				if code == 0 && pt != "none" {
+				if code == 0 && pt != "none" && !strings.HasPrefix(pt, "timer:") {
 					outcomes["point-not-reached"]++
 					_ = os.RemoveAll(wdir)
 					break // higher hit counts are not reached either
@@ -393,6 +410,30 @@ func TestCrash(t *testing.T) {
 // followUp writes one more entity to every live dataset of the session and checks that the feed
 // grows by exactly that entry at its end with a larger token.
 func (s *Session) followUp(r *Result) {
+	// the recovered hub creates a dataset: a name never used, an internal id nobody has, born empty, and what is
+	// written to it stays in it (no reuse of internal identifiers)
+	fresh := "followup-" + s.Tag
+	if nd, err := s.W.Dsm.CreateDataset(fresh, nil); err != nil || nd == nil {
+		r.Divs = append(r.Divs, Divergence{Kind: "follow-up-create", Adapter: "go", Query: fresh, Expected: "the recovered hub creates datasets", Actual: fmt.Sprint(err)})
+		return
+	} else {
+		s.Checks += 2
+		for _, dn := range s.W.Dsm.GetDatasetNames() {
+			if od := s.W.Dsm.GetDataset(dn.Name); od != nil && dn.Name != fresh && od.InternalID == nd.InternalID {
+				r.Divs = append(r.Divs, Divergence{Kind: "follow-up-create", Adapter: "go", Query: fresh,
+					Expected: "an internal dataset id nobody has", Actual: fmt.Sprintf("id %d is also the id of %s", nd.InternalID, dn.Name)})
+				return
+			}
+		}
+		if res, err := nd.GetEntities("", 0); err != nil || len(res.Entities) != 0 {
+			r.Divs = append(r.Divs, Divergence{Kind: "follow-up-create", Adapter: "go", Query: fresh, Expected: "a new dataset is empty", Actual: fmt.Sprint(len(res.Entities), err)})
+			return
+		}
+		if ch, err := nd.GetChanges(0, 0, false); err != nil || len(ch.Entities) != 0 {
+			r.Divs = append(r.Divs, Divergence{Kind: "follow-up-create", Adapter: "go", Query: fresh, Expected: "a new dataset has an empty change log", Actual: fmt.Sprint(len(ch.Entities), err)})
+			return
+		}
+	}
 	for _, n := range s.H.Ds {
 		real := s.DsReal(n)
 		if !s.Ad.Exists(s, real) {
